@@ -122,6 +122,30 @@ fn normalize_index_range(len: usize, start: isize, stop: isize) -> Option<(usize
     Some((start as usize, stop.min(len - 1) as usize))
 }
 
+/// Position of an element in SCAN order: a fixed hash of its name (never 0,
+/// which as a cursor means "start" / "finished"). Because the position of an
+/// element does not depend on the other elements, a cursor - the position of
+/// the next element to visit - stays valid when elements are added or deleted
+/// between calls: everything present throughout the iteration is visited.
+fn scan_position(name: &[u8]) -> u64 {
+    const FNV_OFFSET: u64 = 0xcbf29ce484222325;
+    const FNV_PRIME: u64 = 0x100000001b3;
+    let mut hash = FNV_OFFSET;
+    for &byte in name {
+        hash ^= byte as u64;
+        hash = hash.wrapping_mul(FNV_PRIME);
+    }
+    hash.max(1)
+}
+
+/// True when the element at `pos` has the same SCAN position as the one before
+/// it inside the current page: a page never ends between two such elements, so
+/// that resuming at the returned cursor always makes progress.
+fn scan_same_position<T>(items: &[T], name: impl Fn(&T) -> &[u8], page_start: usize, pos: usize) -> bool {
+    pos > page_start && pos < items.len()
+        && scan_position(name(&items[pos])) == scan_position(name(&items[pos - 1]))
+}
+
 /// Result of a GET operation
 #[derive(Debug)]
 pub enum GetResult {
@@ -2228,9 +2252,10 @@ impl StorageEngine {
             }
         }
         
-        all_keys.sort();
+        // Iterate in an order that does not depend on which other keys exist
+        all_keys.sort_by_cached_key(|k| scan_position(k));
         
-        let start_pos = if cursor == 0 { 0 } else { cursor as usize };
+        let start_pos = all_keys.partition_point(|k| scan_position(k) < cursor);
         if start_pos >= all_keys.len() && !all_keys.is_empty() {
             return Ok((0, Vec::new()));
         }
@@ -2241,7 +2266,8 @@ impl StorageEngine {
         
         let pattern_str = pattern.map(|p| String::from_utf8_lossy(p));
         
-        while keys_examined < max_scan_count * 10 && matching_keys.len() < max_scan_count {
+        while (keys_examined < max_scan_count * 10 && matching_keys.len() < max_scan_count)
+            || scan_same_position(&all_keys, |k| k.as_slice(), start_pos, current_pos) {
             if current_pos >= all_keys.len() {
                 break;
             }
@@ -2267,7 +2293,7 @@ impl StorageEngine {
         let next_cursor = if current_pos >= all_keys.len() {
             0
         } else {
-            current_pos as u64
+            scan_position(&all_keys[current_pos])
         };
         
         Ok((next_cursor, matching_keys))
@@ -2291,9 +2317,9 @@ impl StorageEngine {
                 }
                 
                 let mut fields: Vec<Vec<u8>> = hash.keys().cloned().collect();
-                fields.sort();
+                fields.sort_by_cached_key(|f| scan_position(f));
                 
-                let start_pos = if cursor == 0 { 0 } else { cursor as usize };
+                let start_pos = fields.partition_point(|f| scan_position(f) < cursor);
                 if start_pos >= fields.len() && !fields.is_empty() {
                     return Ok((0, Vec::new()));
                 }
@@ -2303,7 +2329,8 @@ impl StorageEngine {
                 let mut current_pos = start_pos;
                 let pattern_str = pattern.map(|p| String::from_utf8_lossy(p));
                 
-                while fields_examined < max_scan_count * 10 && (result.len() / if no_values { 1 } else { 2 }) < max_scan_count {
+                while (fields_examined < max_scan_count * 10 && (result.len() / if no_values { 1 } else { 2 }) < max_scan_count)
+                    || scan_same_position(&fields, |f| f.as_slice(), start_pos, current_pos) {
                     if current_pos >= fields.len() {
                         break;
                     }
@@ -2333,7 +2360,7 @@ impl StorageEngine {
                 let next_cursor = if current_pos >= fields.len() {
                     0
                 } else {
-                    current_pos as u64
+                    scan_position(&fields[current_pos])
                 };
                 
                 Ok((next_cursor, result))
@@ -2358,9 +2385,9 @@ impl StorageEngine {
                 }
                 
                 let mut members: Vec<Vec<u8>> = set.iter().cloned().collect();
-                members.sort();
+                members.sort_by_cached_key(|m| scan_position(m));
                 
-                let start_pos = if cursor == 0 { 0 } else { cursor as usize };
+                let start_pos = members.partition_point(|m| scan_position(m) < cursor);
                 if start_pos >= members.len() && !members.is_empty() {
                     return Ok((0, Vec::new()));
                 }
@@ -2370,7 +2397,8 @@ impl StorageEngine {
                 let mut current_pos = start_pos;
                 let pattern_str = pattern.map(|p| String::from_utf8_lossy(p));
                 
-                while members_examined < max_scan_count * 10 && result.len() < max_scan_count {
+                while (members_examined < max_scan_count * 10 && result.len() < max_scan_count)
+                    || scan_same_position(&members, |m| m.as_slice(), start_pos, current_pos) {
                     if current_pos >= members.len() {
                         break;
                     }
@@ -2396,7 +2424,7 @@ impl StorageEngine {
                 let next_cursor = if current_pos >= members.len() {
                     0
                 } else {
-                    current_pos as u64
+                    scan_position(&members[current_pos])
                 };
                 
                 Ok((next_cursor, result))
@@ -2422,13 +2450,13 @@ impl StorageEngine {
                     items.push((member, score));
                 }
                 
-                items.sort_by(|a, b| a.0.cmp(&b.0));
+                items.sort_by_cached_key(|item| scan_position(&item.0));
                 
                 if items.len() <= max_scan_count && cursor == 0 && pattern.is_none() {
                     return Ok((0, items));
                 }
                 
-                let start_pos = if cursor == 0 { 0 } else { cursor as usize };
+                let start_pos = items.partition_point(|item| scan_position(&item.0) < cursor);
                 if start_pos >= items.len() && !items.is_empty() {
                     return Ok((0, Vec::new()));
                 }
@@ -2438,7 +2466,8 @@ impl StorageEngine {
                 let mut current_pos = start_pos;
                 let pattern_str = pattern.map(|p| String::from_utf8_lossy(p));
                 
-                while items_examined < max_scan_count * 10 && result.len() < max_scan_count {
+                while (items_examined < max_scan_count * 10 && result.len() < max_scan_count)
+                    || scan_same_position(&items, |item| item.0.as_slice(), start_pos, current_pos) {
                     if current_pos >= items.len() {
                         break;
                     }
@@ -2464,7 +2493,7 @@ impl StorageEngine {
                 let next_cursor = if current_pos >= items.len() {
                     0
                 } else {
-                    current_pos as u64
+                    scan_position(&items[current_pos].0)
                 };
                 
                 Ok((next_cursor, result))
